@@ -298,7 +298,8 @@ func (p *Packet) Bytes() []byte {
 		exp = -11 // precise to 10 ps
 		period := math.Pow10(-int(exp)) / ts.Rate
 		denom = 1
-		for ; period > 65535; period *= 0.5 {
+		// Stop at the largest 16-bit power of two: a zero (or tiny) rate makes the period infinite.
+		for ; period > 65535 && denom < 0x8000; period *= 0.5 {
 			denom *= 2
 		}
 		num = uint16(math.Round(period))
